@@ -7,6 +7,7 @@ import (
 	"time"
 
 	"verif/harness/internal/gen"
+	"verif/harness/internal/prog"
 )
 
 // C11: events reach every listening catch event exactly once; delivery never blocks.
@@ -53,6 +54,31 @@ func C11(c *Ctx) int {
 	}
 	if err := c.TokenGameRound(fs, ps, RoundOpts{Label: "long", MaxSteps: 14, Simulate: sim, MaxPerProg: 60,
 		Features: []string{"deliver"}, MaxDeliver: 8}); err != nil {
+		c.Infraf("%v", err)
+	}
+	// bursts: events handed to the instance back to back, without waiting for what the previous
+	// one causes, while every catch event is slow in working its inbox off (held at each message):
+	// more events than an inbox holds must neither block the deliverer for good nor get lost
+	// (single-token programs with one catch event: no token can arrive at a catch event in the
+	// middle of a burst, so every delivery is unambiguous)
+	var single []*prog.Program
+	for _, p := range ps {
+		nc, multi := 0, false
+		for _, n := range p.Nodes {
+			if n.Kind == "catch" {
+				nc++
+			}
+			if n.Kind == "and" || n.Kind == "or" {
+				multi = true
+			}
+		}
+		if nc == 1 && !multi {
+			single = append(single, p)
+		}
+	}
+	if err := c.TokenGameRound(fs, single, RoundOpts{Label: "burst", MaxSteps: 12, Simulate: sim / 2, MaxPerProg: 60,
+		Features: []string{"deliver"}, MaxDeliver: 8,
+		Job: JobOpts{Perturb: 3, EagerAnswer: true, LingerMs: -1, HoldPoints: []string{"catch.event"}}}); err != nil {
 		c.Infraf("%v", err)
 	}
 	c.Extra["programs"] = len(ps)
